@@ -25,8 +25,65 @@ def _skew3(v):
     return np.array([[0.0, -v[2], v[1]], [v[2], 0.0, -v[0]], [-v[1], v[0], 0.0]])
 
 
+def special_array(kind, j):
+    """Boundary values (k >= 8): zero / axis vectors, identity and half-turn rotations, slightly
+    non-orthonormal matrices, non-unit quaternions.  None when the kind has no special values."""
+    j = int(j) % 4
+    e = 1e-7
+    if kind in ('v2', 'v3', 'v4', 'v6', 'sv3', 'uv3'):
+        n = {'v2': 2, 'v3': 3, 'v4': 4, 'v6': 6, 'sv3': 3, 'uv3': 3}[kind]
+        v = np.zeros(n)
+        if j == 1 or (kind == 'uv3' and j == 0):
+            v[0] = 1.0
+        elif j == 2:
+            v[-1] = 1.0
+        elif j == 3:
+            v[:] = 1e-20 if kind != 'uv3' else 0.0
+            if kind == 'uv3':
+                v[1] = -1.0
+        return v
+    if kind == 'q':
+        return [np.array([1.0, 0, 0, 0]), np.array([0.0, 1.0, 0, 0]), np.array([-1.0, 0, 0, 0]),
+                np.array([0.0, 0, 0, 1.0])][j]
+    if kind == 'R2':
+        return [np.eye(2), np.array([[-1.0, 0], [0, -1.0]]), np.array([[0.0, -1.0], [1.0, 0]]),
+                np.array([[1.0, e], [-e, 1.0]])][j]
+    if kind == 'R3':
+        return [np.eye(3), np.diag([1.0, -1.0, -1.0]), np.diag([-1.0, -1.0, 1.0]),
+                np.eye(3) + e * np.array([[0, 1.0, 0], [0, 0, 1.0], [1.0, 0, 0]])][j]
+    if kind == 'T2':
+        T = np.eye(3)
+        T[:2, :2] = special_array('R2', j)
+        if j != 0:
+            T[:2, 2] = [1.0, -2.0]
+        return T
+    if kind == 'T3':
+        T = np.eye(4)
+        T[:3, :3] = special_array('R3', j)
+        if j != 0:
+            T[:3, 3] = [1.0, -2.0, 0.5]
+        return T
+    if kind in ('so2', 'so3', 'se2', 'se3'):
+        n = {'so2': 2, 'so3': 3, 'se2': 3, 'se3': 4}[kind]
+        S = np.zeros((n, n))
+        if j == 1 and kind == 'so3':
+            S[0, 1], S[1, 0] = -math.pi, math.pi
+        if j == 1 and kind == 'se3':
+            S[0, 1], S[1, 0] = -math.pi, math.pi
+        if j == 2 and kind in ('se2', 'se3'):
+            S[0, -1] = 1.0           # pure translation
+        if j == 3 and kind in ('so2', 'se2'):
+            S[0, 1], S[1, 0] = -math.pi, math.pi
+        return S
+    return None
+
+
 def gen_array(kind, k):
     k = int(k)
+    if k >= 8:
+        sp = special_array(kind, k - 8)
+        if sp is not None:
+            return sp
     if kind == 'v2':
         return np.array([0.5 * k + 0.25, -0.75 * k + 1.0])
     if kind == 'v3':
@@ -101,9 +158,10 @@ def gen_array(kind, k):
 def gen_scalar(kind, k):
     k = int(k)
     if kind == 'ang':
-        return [0.3, -0.7, 1.2, 0.0, 2.5, -1.9, 0.05, 3.0][k % 8]
+        return [0.3, -0.7, 1.2, 0.0, 2.5, -1.9, 0.05, 3.0, math.pi, -math.pi, math.pi / 2,
+                2 * math.pi][k % 12]
     if kind == 'sc':
-        return [0.5, 2.0, -1.5, 1.0, 0.0, 3.25, -0.25, 10.0][k % 8]
+        return [0.5, 2.0, -1.5, 1.0, 0.0, 3.25, -0.25, 10.0, -1.0, 1e-12, 90.0, 180.0][k % 12]
     if kind == 's01':
         return [0.0, 1.0, 0.5, 0.25, 0.9, 0.1][k % 6]
     if kind == 'int':
